@@ -199,7 +199,8 @@ def gen(ch):
         sc["outer"] = ch.between(1, 2) if ch.chance(1, 4) else 0
         total = sc["children"] + max(0, sc["outer"] - 1)
         sc["close_at"] = [ch.draw(sc["length"]) if ch.chance(1, 3) else None for _ in range(total)]
-        sc["close_at"][0] = None
+        # one child (any of them) runs to the end; the others may be closed early, in any order
+        sc["close_at"][ch.draw(total) if ch.chance(1, 2) else 0] = None
         if ch.chance(1, 4):
             # one child is closed before it was ever advanced - after its first step was created and thrown away
             sc["close_at"][total - 1] = 0
